@@ -48,12 +48,14 @@ func (p DictPattern) Bind(ctx context.Context, local Scope, value Value) (contex
 	}
 
 	extraElements := make(map[int]int)
+	hasRest := false
 	for i, entry := range p.entries {
 		if _, is := entry.pattern.pattern.(ExtraElementPattern); is {
 			if len(extraElements) == 1 {
 				return ctx, EmptyScope, fmt.Errorf("non-deterministic pattern is not supported yet")
 			}
 			extraElements[i] = dict.Count() - len(p.entries)
+			hasRest = true
 		}
 		if entry.pattern.fallback != nil {
 			if len(extraElements) == 1 {
@@ -67,7 +69,8 @@ func (p DictPattern) Bind(ctx context.Context, local Scope, value Value) (contex
 		return ctx, EmptyScope, fmt.Errorf("length of dict %s shorter than dict pattern %s", dict, p)
 	}
 
-	if len(extraElements) == 0 && len(p.entries) < dict.Count() {
+	// Only ...rest absorbs surplus elements; a fallback stands for at most one.
+	if !hasRest && len(p.entries) < dict.Count() {
 		return ctx, EmptyScope, fmt.Errorf("length of dict %s longer than dict pattern %s", dict, p)
 	}
 
